@@ -103,6 +103,9 @@ pub struct ExecState {
     pub clone_counter: u32,
     /// some stored handle was unrecorded (or over-recorded) after some call
     pub not_fully_recorded: bool,
+    /// the payload's Clone impl yields a copy WITHOUT the stored handles (a value type
+    /// whose clone starts empty) instead of cloning every stored handle
+    pub shallow_clone: bool,
 }
 
 impl Default for ExecState {
@@ -111,7 +114,7 @@ impl Default for ExecState {
             depth: 0, dtor_counter: 0, faults: Faults::default(), fired_panics: 0, fired_scripts: 0, panic_in_call: false, any_panic: false,
             pending_clone: None, clone_done: None, c14: None, record_dtors: false, dtors: vec![], call_digests: vec![], order_digest: 0,
             call_start_log: 0, c16_markers: false, collected_group_with_outside_survivor: false, nested_destroy_in_script: 0, nontrivial: 0,
-            shape_hash: 0, dtor_downgrade_p: 0, dtor_rng: crate::gen::Rng(0), dtor_auto: 0, inline_record: vec![], call_start_alive: 0, call_start_traces: 0, call_start_visits: 0, clone_counter: 0, not_fully_recorded: false,
+            shape_hash: 0, dtor_downgrade_p: 0, dtor_rng: crate::gen::Rng(0), dtor_auto: 0, inline_record: vec![], call_start_alive: 0, call_start_traces: 0, call_start_visits: 0, clone_counter: 0, not_fully_recorded: false, shallow_clone: false,
         }
     }
 }
@@ -159,7 +162,7 @@ fn on_stale_access() {
 
 /// Reset everything for a new execution. Leftovers of the previous execution are
 /// forgotten, never dropped (their heap is gone with the arena reset).
-pub fn reset(faults: Faults, want_snaps: bool, record_dtors: bool, c16_markers: bool, dtor_downgrade_p: u32, dtor_seed: u64) {
+pub fn reset(faults: Faults, want_snaps: bool, record_dtors: bool, c16_markers: bool, dtor_downgrade_p: u32, dtor_seed: u64, shallow_clone: bool) {
     har(|| {
         let old = W.with(|w| std::mem::take(&mut *w.borrow_mut()));
         std::mem::forget(old);
@@ -168,7 +171,7 @@ pub fn reset(faults: Faults, want_snaps: bool, record_dtors: bool, c16_markers: 
             drop(old);
         });
         X.with(|x| {
-            *x.borrow_mut() = ExecState { faults, record_dtors, c16_markers, order_digest: 0xcbf29ce484222325, dtor_downgrade_p, dtor_rng: crate::gen::Rng(dtor_seed), ..ExecState::default() };
+            *x.borrow_mut() = ExecState { faults, record_dtors, c16_markers, order_digest: 0xcbf29ce484222325, dtor_downgrade_p, dtor_rng: crate::gen::Rng(dtor_seed), shallow_clone, ..ExecState::default() };
         });
     });
     verif::reset();
@@ -549,7 +552,11 @@ impl Clone for Node {
             m(|m| {
                 m.objs.insert(o2, Obj { alive: true, rc: true, ..Obj::default() });
             });
+            let shallow = x(|x| x.shallow_clone);
             for s in self.slots.borrow().iter() {
+                if shallow {
+                    break;
+                }
                 let c = sut(|| Rc::clone(&s.h));
                 let sid = m(|m| {
                     let sid = m.auto_id();
@@ -559,6 +566,9 @@ impl Clone for Node {
                 n.slots.borrow_mut().push(Slot { id: sid, target: s.target, h: c });
             }
             for ws in self.weaks.borrow().iter() {
+                if shallow {
+                    break;
+                }
                 let c = weak_call(|| ws.w.clone());
                 let wid = m(|m| {
                     let wid = m.auto_id();
